@@ -11,16 +11,17 @@ Definition using_pc (pc : fpc) : bool := match pc with FWriting | FFlushing => t
 Definition emptied_pc (pc : fpc) : bool := match pc with FWritten | FFlushing | FFlushed => true | _ => false end.
 Definition slip_pc (pc : fpc) : bool := match pc with FUnlocked | FUFlushing => true | _ => false end.
 Definition hflush (s : mpstate) : bool := match m_h s with MHFlush => true | _ => false end.
+Definition hlock (s : mpstate) : bool := match m_h s with MHFlush | MHClose => true | _ => false end.
 Definition kflush (s : mpstate) : bool := match m_k s with MKFlush => true | _ => false end.
 Definition hdone (s : mpstate) : bool :=
-  match m_h s with MHDeferred | MHDeferring | MHReturned => true | MHFlush => (match m_hf s with FEnd => true | _ => false end) | MHAdding => false end.
+  match m_h s with MHClose | MHDeferred | MHDeferring | MHReturned => true | MHFlush => (match m_hf s with FEnd => true | _ => false end) | MHAdding => false end.
 Definition adding (s : mpstate) : bool := match m_h s with MHAdding => true | _ => false end.
 Definition is_nil {A} (l : list A) : bool := match l with [] => true | _ => false end.
 
 Record mpinv (rs : list nat) (s : mpstate) : Prop := {
-  ma_h : (match m_holder s with Some MH => true | _ => false end) = hflush s && holding_pc (m_hf s);
+  ma_h : (match m_holder s with Some MH => true | _ => false end) = hlock s && holding_pc (m_hf s);
   ma_k : (match m_holder s with Some MK => true | _ => false end) = kflush s && holding_pc (m_kf s);
-  mb_h : m_using_h s = (hflush s && using_pc (m_hf s)) || (match m_h s with MHDeferring => true | _ => false end);
+  mb_h : m_using_h s = (hlock s && using_pc (m_hf s)) || (match m_h s with MHDeferring => true | _ => false end);
   mb_k : m_using_k s = kflush s && using_pc (m_kf s);
   mc_done : hdone s = true -> is_nil (m_pending s) = true /\ kflush s && emptied_pc (m_kf s) = false /\ kflush s && using_pc (m_kf s) = false;
   md_h : hflush s && emptied_pc (m_hf s) = true -> is_nil (m_pending s) = true;
@@ -31,15 +32,17 @@ Record mpinv (rs : list nat) (s : mpstate) : Prop := {
   mj_slip : slip_pc (m_hf s) = false /\ slip_pc (m_kf s) = false;
   mk_done : m_done s = negb (adding s) }.
 
-Lemma mpinv_init rs : mpinv rs (mpinit rs).
+Lemma mpinv_init_open rs o : mpinv rs (mpinit_open rs o).
 Proof. constructor; cbn; try reflexivity; try discriminate; auto. Qed.
+Lemma mpinv_init rs : mpinv rs (mpinit rs).
+Proof. apply mpinv_init_open. Qed.
 
 Ltac data :=
   unfold written in *; cbn [m_out m_pending m_added m_todo flat_map snd app] in *;
   rewrite ?flat_map_app, ?app_nil_r in *; cbn [flat_map snd app] in *; rewrite ?app_nil_r, <- ?app_assoc in *;
   try congruence; try (cbn; congruence).
 
-Ltac flds := cbn [m_todo m_h m_hf m_k m_kf m_holder m_pending m_added m_out m_done m_using_h m_using_k m_late] in *.
+Ltac flds := cbn [m_todo m_h m_hf m_k m_kf m_holder m_pending m_added m_out m_done m_using_h m_using_k m_late m_open] in *.
 
 Ltac close_goal :=
   try reflexivity; try discriminate; try assumption;
@@ -49,18 +52,18 @@ Ltac close_goal :=
 Theorem mpstep_inv rs s l s' : mpinv rs s -> mpstep true s l = Some s' -> mpinv rs s'.
 Proof.
   intros [Ah Ak Bh Bk Cd Dh Eo Gt Hl It [Jh Jk] Kd].
-  destruct s as [todo h hf k kf holder pending added out done uh uk late].
-  unfold hflush, kflush, hdone, adding in *. flds. subst uh uk late done.
+  destruct s as [todo h hf k kf holder pending added out done uh uk late opn].
+  unfold hflush, hlock, kflush, hdone, adding in *. flds. subst uh uk late done.
   destruct h, hf; cbn in Jh; try discriminate;
   destruct k, kf; cbn in Jk; try discriminate;
   destruct holder as [[|]|]; cbn in Ah, Ak; try discriminate;
-  destruct l; cbn [mpstep flush_step m_todo m_h m_hf m_k m_kf m_holder m_pending m_added m_out m_done m_using_h m_using_k m_late f_holder f_pending f_out f_using negb];
+  destruct l; try destruct opn; cbn [mpstep flush_step close_step m_todo m_h m_hf m_k m_kf m_holder m_pending m_added m_out m_done m_using_h m_using_k m_late m_open f_holder f_pending f_out f_using negb];
   try discriminate;
   try (destruct todo as [|x todo]); try (destruct pending as [|p ps]);
   cbn in Cd, Dh, It;
   try (destruct (Cd eq_refl) as (C1 & C2 & C3)); try (pose proof (Dh eq_refl) as D1); try (pose proof (It eq_refl) as I1);
   try discriminate;
   intros E; inversion E; subst; clear E;
-  (constructor; unfold hflush, kflush, hdone, adding, late_if, returned; flds; cbn; close_goal; data; try (rewrite <- Eo; rewrite <- app_assoc; reflexivity)).
+  (constructor; unfold hflush, hlock, kflush, hdone, adding, late_if, returned; flds; cbn; close_goal; data; try (rewrite <- Eo; rewrite <- app_assoc; reflexivity)).
 Qed.
 
